@@ -132,8 +132,8 @@ def make_plan(rng, nrng, kind, sp, D=None):
             iu = rng.choice([1, 2, 4])
             data = (nrng.integers(-200 * iu, 4000 * iu, size=shape) / iu).astype(dt)
         if rng.random() < 0.3:
-            p["slope"] = rng.choice([0.5, 2.0, 0.25, 3.0])
-            p["inter"] = rng.choice([0.0, 1.0, -2.5, 10.0])
+            p["slope"] = rng.choice([0.5, 2.0, 0.25, 3.0, 1.0, 1.0])
+            p["inter"] = rng.choice([0.0, 1.0, -2.5, 10.0, -1024.0, -1.0])
             p["ignore_scaling"] = rng.random() < 0.4
     if rng.random() < 0.3:
         p["sharding"] = [rng.randint(0, 5), rng.randint(0, 5), rng.randint(0, 4),
